@@ -6,6 +6,7 @@ model  = {"name", "inputs": [(port, width)], "outputs": [(port, width)], "declar
 item   = {"kind": "subckt"|"gate"|"names"|"latch", "model": name|None, "pins": [(port, bit, netbit|None)],
           "cname": str|None, "attr": {}, "param": {}, "covers": [...], "order": int}
 netbit = (name, idx|None)   (idx None = scalar net)"""
+import random
 
 
 def fmt_bit(nb):
@@ -247,6 +248,11 @@ def write(design, r, style=True):
             info.append(cont(".param", k, v) if " " not in str(v) else ".param %s %s" % (k, v))
         if style and r.random() < 0.3:
             r.shuffle(info)         # the lines that follow an instance come in any order (.param before .cname, ...)
+        if style and it["kind"] in ("subckt", "gate", "latch") and len(info):
+            # empty lines between an instance and the lines that describe it, and between those lines (own generator: no other draw moves)
+            br = random.Random("blank:%d:%d" % (len(out), len(info)))
+            if br.random() < 0.3:
+                info = [x for ln in info for x in ([""] * br.choice([0, 1, 1, 2]) + [ln])]
         out.extend(info)
     for a, b in design["conns"]:
         out.append(cont(".conn", fmt_bit(a), fmt_bit(b)))
